@@ -39,35 +39,35 @@ def run(tier):
     obs = [
         Obligation('field_eq_diff', 'harness/c05.py', 'h_field_eq_diff',
                    partitions=[[t, m] for t in range(6) for m in ((3, 5, 17, 6, 18, 20) if tier == 'quick' else (31,))],
-                   timeout=240,
+                   timeout=(240 if tier == 'quick' else 1500),
                    what='FieldSignature: (a == b) iff a.diff(b) and b.diff(a) are empty; a == a.clone() with empty diff',
                    bounds='6 field types, relation target in 2 models, null/max_length/db_index/db_column absent or stated on either side with symbolic values (bool, int, str); quick: attributes two at a time, thorough: all four together',
                    functions=SIG[:1]),
         Obligation('eq_togethers', 'harness/c05.py', 'h_eq_togethers',
-                   partitions=[[a, b] for a in range(6) for b in range(6)], timeout=240,
+                   partitions=[[a, b] for a in range(6) for b in range(6)], timeout=(240 if tier == 'quick' else 1500),
                    what='Model/App/Project signature: == iff diff empty both ways; Diff(s, s) and Diff(s, clone) empty',
                    bounds='unique_together x index_together from 6 values each side (incl. reordered and overlapping tuples)',
                    functions=SIG),
         Obligation('eq_indexes', 'harness/c05.py', 'h_eq_indexes',
-                   partitions=[[a, b] for a in range(5) for b in range(5)], timeout=240,
+                   partitions=[[a, b] for a in range(5) for b in range(5)], timeout=(240 if tier == 'quick' else 1500),
                    what='same, Meta.indexes: two slots per side from 5 index kinds (named/unnamed, ordering prefix, attrs) with optional reordering',
                    bounds='5^4 x 2^2 index-list pairs', functions=SIG),
         Obligation('eq_constraints', 'harness/c05.py', 'h_eq_constraints',
-                   partitions=[[a, b] for a in range(3) for b in range(3)], timeout=240,
+                   partitions=[[a, b] for a in range(3) for b in range(3)], timeout=(240 if tier == 'quick' else 1500),
                    what='same, Meta.constraints (two slots per side, reordering) and db_table_comment',
                    bounds='3^4 x 2^2 constraint-list pairs; comments from {None, "", x, y}', functions=SIG),
         Obligation('closure_field', 'harness/c05.py', 'h_closure_field', partitions=closure_partitions(tier),
-                   timeout=240,
+                   timeout=(240 if tier == 'quick' else 1500),
                    what='Diff(old, new).evolution() simulated on clone(old) leaves no residual difference from new (either direction), for one field changed in place / added / deleted / model deleted',
                    bounds=('quick: 4 (old type, new type) pairs for in-place change, 4 types added, 3 deleted; attributes varied two at a time (pairs null+max_length, null+db_index, unique+db_column, max_length+db_column), values symbolic; default of the model field symbolic'
                            if tier == 'quick' else 'thorough: all 36 type pairs, all five attributes together'),
                    functions=CLOS),
         Obligation('closure_togethers', 'harness/c05.py', 'h_closure_togethers',
-                   partitions=[[a, b] for a in range(6) for b in range(6)], timeout=240,
+                   partitions=[[a, b] for a in range(6) for b in range(6)], timeout=(240 if tier == 'quick' else 1500),
                    what='hint closure for unique_together / index_together changes',
                    bounds='6^4 (old, new) value combinations', functions=CLOS),
         Obligation('closure_indexes', 'harness/c05.py', 'h_closure_indexes',
-                   partitions=[[a, b] for a in range(5) for b in range(5)], timeout=240,
+                   partitions=[[a, b] for a in range(5) for b in range(5)], timeout=(240 if tier == 'quick' else 1500),
                    what='hint closure for Meta.indexes and Meta.constraints changes',
                    bounds='indexes: 5^4 x 2 (old two slots, new two slots, reordered); constraints: 3^3 x 2', functions=CLOS),
     ]
